@@ -765,6 +765,8 @@ class Interp:
         if isinstance(v, ArgsView) and isinstance(idx, Const):
             return self.node_arg(v.node, idx.v)
         if isinstance(v, Seq):
+            if v.kind == "dict" and v.src:
+                self.effect("keyed-lookup", v, idx, e)  # a mapping built from a sequence, read back by key: one entry per distinct key
             return v.elem
         if isinstance(v, ExcV) and isinstance(idx, Const):
             return Sym(f"{v.tag}.args[{idx.v}]", typ="str")
@@ -2139,6 +2141,22 @@ class Interp:
             return n
         if name in ("pop", "assert_is"):
             return n
+        if name == "flatten" and not n.open and n.cls:
+            # Expression.flatten(): the operands of a chain of one connector class (a AND b AND c -> a, b, c), left to right
+            out = []
+
+            def leaves(x):
+                if isinstance(x, NodeV) and x.cls == n.cls:
+                    for k_ in ("this", "expression"):
+                        if isinstance(x.args.get(k_), NodeV):
+                            leaves(x.args[k_])
+                elif isinstance(x, NodeV):
+                    y = x
+                    while y.cls == "Paren" and isinstance(y.args.get("this"), NodeV):
+                        y = y.args["this"]
+                    out.append(y)
+            leaves(n)
+            return Lst(out)
         return Sym(f"{n.name}.{name}()@{self.siteid(site)}", origin=("method", n, name, args))
 
     def _children(self, x) -> list:
